@@ -178,6 +178,7 @@ class Module:
         self.restored_locals = []
         alpha.restore_local_names(self.tree, name, self.restored_locals, fq)
         self.normalized["explaining_locals"] = normalize.inline_new_locals(self.tree, name, alpha.load_reference(), fq)
+        self.normalized["ifexps"] = normalize.hoist_new_ifexps(self.tree, name, alpha.load_reference(), fq)
         set_parents(self.tree)
         self.classes = {}
         self.functions = {}
